@@ -134,14 +134,33 @@ def same_value(chain_a, chain_b):
     return False
 
 
+def controls(ck):
+    import core
+    fx = core.fixture_facts()
+    pr = core.Probe()
+    analyse(pr, fx, "vfix", r"^FakeIri<")
+    for name, expect in (("pos_open_unchecked", True), ("pos_open_check_not_dominating", True),
+                         ("pos_open_weak_check", True), ("neg_open_checked", False), ("neg_open_constant", False)):
+        ck.control("R19.1", name, pr.fired(r"^R19\.1@%s#" % name), expect)
+
+
 def run(ck, facts, tier):
     facts.require_crates(["sophia_resource"])
+    controls(ck)
+    sinks, tainted_sinks = analyse(ck, facts, "sophia_resource", IRI_PARAM)
+    ck.floor("R19.1", "file-system calls in sophia_resource", sinks, 1)
+    ck.floor("R19.1", "file-system calls whose path depends on an IRI parameter", tainted_sinks, 1)
+    ck.extra["fs_calls"] = sinks
+    ck.extra["fs_calls_tainted_by_iri"] = tainted_sinks
+
+
+def analyse(ck, facts, crate, iri_param):
     sinks = 0
     tainted_sinks = 0
-    fns = [f for f in facts.fns.values() if f.crate == "sophia_resource"]
+    fns = [f for f in facts.fns.values() if f.crate == crate]
     for fn in fns:
         root = fn if fn.kind != "Closure" else facts.fns.get(fn.root, fn)
-        sources = [i for i in range(1, fn.argc + 1) if re.search(IRI_PARAM, fn.locals[i]["ty"])]
+        sources = [i for i in range(1, fn.argc + 1) if re.search(iri_param, fn.locals[i]["ty"])]
         taint = tainted_locals(fn, sources) if sources else set()
         conf = None
         for bi, t in fn.calls():
@@ -196,7 +215,4 @@ def run(ck, facts, tier):
                        "%s opens `dir.join(sub)` where `sub` is the remainder of the IRI and no confinement check "
                        "(components().all(Normal) / canonicalize+starts_with) on `sub` dominates the call: `..` segments "
                        "or a leading `/` escape the configured directory" % name, loc)
-    ck.floor("R19.1", "file-system calls in sophia_resource", sinks, 1)
-    ck.floor("R19.1", "file-system calls whose path depends on an IRI parameter", tainted_sinks, 1)
-    ck.extra["fs_calls"] = sinks
-    ck.extra["fs_calls_tainted_by_iri"] = tainted_sinks
+    return sinks, tainted_sinks
